@@ -486,7 +486,7 @@ class Layout:
 def rule_layout(ctx):
     r = Rule('C29-SRC', 'in the generated pickle code the state tuple packed by __reduce_cython__, the indices read back by '
                         '__set_state, the __dict__ slot passed to __Pyx_UpdateUnpickledDict and the names hashed into the checksum all '
-                        'describe the same member sequence (partial evaluation for classes with 1..3 members)', floor=12)
+                        'describe the same member sequence (partial evaluation for classes with 1..3 members)', floor=15)
     _, fn, _ = find_generator(ctx)
 
     def check(names, rec):
@@ -548,7 +548,7 @@ def rule_layout(ctx):
 def rule_checksums(ctx):
     cat = ctx.cat
     r = Rule('C29-SUM', 'for every number of hash algorithms that %s can return, the generated call of %s passes one integer literal per '
-                        'C checksum parameter, and the checksum __reduce_cython__ hands to pickle is one of them' % (SUMFN, CHECK), floor=3)
+                        'C checksum parameter, and the checksum __reduce_cython__ hands to pickle is one of them' % (SUMFN, CHECK), floor=1)
     decls = [d for d in cat.decls.get(CHECK, []) if d.kind in ('func', 'proto')]
     if not decls:
         raise AnalysisError('%s not found in Cython/Utility' % CHECK)
@@ -620,7 +620,7 @@ def rule_extern(ctx):
     cat = ctx.cat
     r = Rule('C29-I7', 'the `cdef extern` declarations of __Pyx_ helpers in the generated unpickle code agree with the C prototypes '
                        '(parameter count and kinds, return kind, `except -1` iff the C function returns -1 on error), the generated calls '
-                       'pass that many arguments, and the utility sections defining the helpers are requested next to the code that uses them', floor=4)
+                       'pass that many arguments, and the utility sections defining the helpers are requested next to the code that uses them', floor=5)
     rec, block, fn, m = generate(ctx, ['m_a', 'm_b'], 3)
     decl_re = re.compile(r'^\s*(?P<ret>\w[\w ]*?)\s+(?P<name>__Pyx_\w+)\s*\((?P<params>[^)]*)\)\s*(?:(?:except|noexcept)\s*(?P<exc>[-\w?*]+)?)?\s*$')
     loads = set()
@@ -724,7 +724,7 @@ def rule_names(ctx):
     cat, ix = ctx.cat, ctx.index
     r = Rule('C29-NAMES', 'the *_cython__ methods generated for a class (both the working and the TypeError variants) are exactly the '
                           'names __Pyx_setup_reduce looks up, and the class setup calls __Pyx_setup_reduce (checked, with its section) '
-                          'when one of them exists', floor=5)
+                          'when one of them exists', floor=6)
     m, fn, block = find_generator(ctx)
     groups = fragment_method_names(fn)
     if len(groups) < 2:
